@@ -14,7 +14,7 @@ import json, os, re, shutil, subprocess, sys, argparse, time
 ENV = dict(os.environ, GOFLAGS="-mod=mod", GOPROXY="off", GOSUMDB="off", GOTOOLCHAIN="local")
 
 def sh(cmd, cwd=None, timeout=3600):
-    p = subprocess.run(cmd, shell=True, text=True, capture_output=True, cwd=cwd, env=ENV, timeout=timeout)
+    p = subprocess.run(cmd, shell=True, text=True, errors="replace", capture_output=True, cwd=cwd, env=ENV, timeout=timeout)
     return p.returncode, p.stdout + p.stderr
 
 def suite(wt):
@@ -91,7 +91,7 @@ def main():
         checks = (a.checks or a.prop).split(",")
         for c in checks:
             t0 = time.time()
-            p = subprocess.run("./check %s quick" % c, shell=True, text=True, capture_output=True, cwd="/verif", env=envc)
+            p = subprocess.run("./check %s quick" % c, shell=True, text=True, errors="replace", capture_output=True, cwd="/verif", env=envc)
             rc, out = p.returncode, p.stdout + p.stderr
             first = [l.strip() for l in out.splitlines() if "violation[" in l][:1]
             results[c] = {"exit": rc, "caught": rc == 1 and ("VIOLATION property=%s" % c) in out, "first_violation": (first[0][:300] if first else ""), "wall_s": round(time.time() - t0, 1)}
